@@ -415,6 +415,13 @@ def build(spec, cfg):
             if r.get('indices') is not None:
                 kw['indices'] = list(r['indices'])
             model.add_constraint(nm, lower=-1e30 if False else None, upper=1000.0, **kw)
+    if cfg.get('approx_model'):
+        # totals of the whole model by finite differences (exact for affine models with a unit absolute step)
+        model.approx_totals(method='fd', step=1.0, form='forward', step_calc='abs')
+    if cfg.get('coloring'):
+        if cfg.get('approx_model'):
+            model.declare_coloring(show_summary=False, show_sparsity=False)
+        prob.driver.declare_coloring(show_summary=False, show_sparsity=False)
     prob.setup(mode=cfg.get('mode', 'auto'), force_alloc_complex=False)
     return prob
 
